@@ -16,6 +16,9 @@ ASSUMPTIONS = list(TRUSTED_BASE)
 
 
 def run_extra(pid, tier, seed, repo, reg, cache):
+    if pid == "C20":
+        from . import models
+        return models.run(tier, repo.root)
     return None
 
 # ---------------------------------------------------------------------------------------------- claims (MANIFEST is generated from this)
@@ -96,10 +99,12 @@ claim("C08", "Shrink-only and frame clauses of BC and shaving (postconditions), 
       "BC queues the watchers of every bound it moves and re-filters a propagator whose aliased views were intersected. The fixpoint itself (re-executing any enabled constraint neither fails nor prunes) and the trigger clause of Problem.init are "
       "checked by bounded suites (fixpoint monitor after every propagation pass of the real solver).",
       "contract-based deductive verification + bounded fixpoint monitor", level="other")
-claim("C20", "Bounded: every shipped model (queens, magic sequence, magic square, latin square (+RC, +givens), circuit, Schur (with/without symmetry breaking), QG5, BIBD, donald, sudoku, knapsack, TSP, Golomb) "
+claim("C20", "Per-model lemmas discharged by z3 on the declarative content produced by the REAL constructors (queens up to 30, magic sequence up to 10, magic square 3-5 with/without symmetry breaking, latin squares incl. givens and the RC model, Schur up to 12): "
+      "posted relations imply the definition-level validator (soundness, all variants), and without symmetry breaking the validator implies the posted relations and the declared domains (completeness). "
+      "Counts, optima and the remaining models are bounded: every shipped model (queens, magic sequence, magic square, latin square (+RC, +givens), circuit, Schur (with/without symmetry breaking), QG5, BIBD, donald, sudoku, knapsack, TSP, Golomb) "
       "is solved by the real solver at small sizes under three configurations; every solution is validated against the problem definition and counts/optima are compared with brute force or the literature. "
-      "No per-model deductive lemma is claimed in this build; C01/C02 carry the general argument.",
-      "bounded run-time validation of the shipped models (no deductive claim)", level="other")
+      "With C01/C02 the lemmas give 'every solution is a valid object' and 'the solutions are exactly the valid objects' for those models and sizes; that a count equals the literature's number is not decidable by a contract and is only cross-checked at small sizes.",
+      "per-model z3 lemmas over the real constructors' output + bounded run-time validation", level="other")
 claim("C05", "Generic propagator contract clauses P1 (contraction) and P2 (every supported tuple kept; inconsistency only when no tuple) as postconditions of each compute_domains_X, "
       "discharged by z3 from VCs generated from the real source: unbounded-arity proofs (loop invariants) for the linear and min/max/and/dummy propagators, "
       "arity-bounded proofs (unroll mode, values symbolic) for the counting, element and lexicographic propagators.",
